@@ -10,6 +10,7 @@ import (
 	"os"
 	"os/exec"
 	"path/filepath"
+	"strconv"
 	"strings"
 
 	"pgregory.net/rapid"
@@ -63,7 +64,12 @@ func pyServer() (*pyProc, error) {
 	cmd := exec.Command("python3", filepath.Join(dir, "py", "pyserve.py"))
 	seed := os.Getenv("VERIF_PYTHONHASHSEED")
 	if seed == "" {
+		// a function of the batch index, so that both hash seeds are exercised and a
+		// batch still replays exactly
 		seed = "1"
+		if b, err := strconv.Atoi(os.Getenv("VERIF_BATCH_INDEX")); err == nil && b%2 == 1 {
+			seed = "2"
+		}
 	}
 	cmd.Env = append(os.Environ(), "PYTHONHASHSEED="+seed, "PYTHONDONTWRITEBYTECODE=1")
 	in, err := cmd.StdinPipe()
